@@ -1630,13 +1630,28 @@ class TeX(object):
             elif t in string.digits:
                 num = number(sign * int(t + self.readSequence(string.digits,
                                                               optspace=optspace)))
-                for t in self:
-                    if t.nodeType == Macro.ELEMENT_NODE and \
-                       isinstance(t, ParameterCommand):
-                        num = number(num * number(t))
-                    else:
-                        self.pushToken(t)
+                # A parameter may follow as a factor.  Look at the next
+                # token without expanding it: a group or environment that
+                # merely follows the number must not be opened before the
+                # number has been used (e.g. \catcode`\@=11 {...}).
+                isparam = False
+                for t in self.itertokens():
+                    self.pushToken(t)
+                    if t.nodeType == Macro.ELEMENT_NODE:
+                        isparam = isinstance(t, ParameterCommand)
+                    elif t.macroName is not None:
+                        isparam = isinstance(
+                            self.ownerDocument.createElement(t.macroName),
+                            ParameterCommand)
                     break
+                if isparam:
+                    for t in self:
+                        if t.nodeType == Macro.ELEMENT_NODE and \
+                           isinstance(t, ParameterCommand):
+                            num = number(num * number(t))
+                        else:
+                            self.pushToken(t)
+                        break
             # octal constant
             elif t == "'":
                 num = number(sign * int('0' + self.readSequence(string.octdigits,
